@@ -254,6 +254,13 @@ def idiom_family() -> list[str]:
                     a, b = ("%c", "%x") if side == 0 else ("%x", "%c")
                     out.append(f"func.func @f(%x : {t}, %y : {t}) -> {t} {{\n  %c = arith.constant {c} : {t}\n  %r = arith.{op} {a}, {b} : {t}\n  %s = arith.addi %r, %y : {t}\n  func.return %s : {t}\n}}")
             out.append(f"func.func @f(%x : {t}) -> {t} {{\n  %r = arith.{op} %x, %x : {t}\n  func.return %r : {t}\n}}")
+            # both operands constant (folders): sign-bit mixes and boundaries
+            w = {"i32": 32, "i64": 64, "i1": 1, "index": 64}[t]
+            hi, lo = (1 << (w - 1)) - 1, -(1 << (w - 1))
+            pairs = [(-1, 1), (1, -1), (0, -1), (-1, 0), (lo, 1), (hi, lo), (2, 3), (-2, -3)] if w > 1 else [(0, 1), (1, 0), (1, 1)]
+            for (a, b) in pairs:
+                out.append(f"func.func @f(%y : {t}) -> {t} {{\n  %a = arith.constant {a} : {t}\n  %b = arith.constant {b} : {t}\n  %r = arith.{op} %a, %b : {t}\n"
+                           f"  %s = arith.xori %r, %y : {t}\n  func.return %s : {t}\n}}")
         for (a, b) in ((1, 0), (0, 1), (1, 1), (0, 0), (2, 3)):
             if t == "i1" and (a > 1 or b > 1):
                 continue
